@@ -198,6 +198,15 @@ def mk_call(site, callee, args, argtys=None):
             return args[0]
     if how == "deref0" and args:
         return mk_deref(args[0])
+    # NonZero::new(0) is None
+    if d.startswith("core::num::NonZero") and d.endswith("::new") and len(args) == 1 and is_const(args[0], 0):
+        return mk_agg("adt", "core::option::Option", "None", 0, ())
+    # `a == b` / `a != b` on NonNull pointers is pointer identity, like ptr::eq
+    if d in ("core::cmp::PartialEq::eq", "core::cmp::PartialEq::ne") and callee and len(args) == 2:
+        st0 = callee.get("self_ty") or {}
+        if st0.get("adt") == "core::ptr::NonNull" and st0.get("peel", 0) == 0:
+            e = ("call", site, "core::ptr::eq", (mk_deref(args[0]), mk_deref(args[1])))
+            return e if d.endswith("::eq") else mk_un("Not", e)
     if d in CONVERT and args and callee:
         # reference/pointer -> NonNull conversions keep the address
         targs = callee.get("targs") or []
